@@ -387,6 +387,17 @@ def run_unit(scratch, prop, unit, exp, tier):
                                           values=None, reproduced=False, verifier_output=f["rendered"], snippet=f["snippet"], unit=unit))
     res["verified_count"] = vresults.get("verified", 0)
     res["error_count"] = vresults.get("errors", 0)
+    # mechanical scan of the verified text for everything that is assumed rather than proved
+    scan = []
+    for m in re.finditer(r"assume_specification(?:<[^>]*>)?\s*\[((?:[^\[\]]|\[[^\]]*\])+)\]", text):
+        scan.append("assume_specification %s" % re.sub(r"\s+", "", m.group(1)))
+    for m in re.finditer(r"#\[verifier::external_body\]\s*(?:#\[[^\]]*\]\s*)*pub (?:broadcast )?(?:proof )?(?:fn|struct) (\w+)", text):
+        scan.append("external_body %s" % m.group(1))
+    for kw in ("admit()", "assume("):
+        n = len(re.findall(r"(?<![\w_])" + re.escape(kw), text))
+        if n:
+            scan.append("%s x%d" % (kw, n))
+    res["assumption_scan"] = ["[%s] %s" % (unit, x) for x in sorted(set(scan))]
     res["unit_summary"] = [dict(unit=unit, verus_verified=vresults.get("verified", 0), verus_errors=vresults.get("errors", 0),
                                 extracted_functions=len(info), smt_total_ms=js.get("times-ms", {}).get("smt", {}).get("total"),
                                 verus_total_ms=js.get("times-ms", {}).get("total"))]
@@ -398,7 +409,7 @@ def run_units(scratch, prop, units, tier):
     if not have:
         return {}
     ok, blog = ensure_k2v()
-    out = dict(violations=[], undecided=[], units=[], cmds=[], trusted=[], probes=None, unit_summary=[])
+    out = dict(violations=[], undecided=[], units=[], cmds=[], trusted=[], probes=None, unit_summary=[], assumption_scan=[])
     if not ok:
         out["undecided"].append("engine V: k2v is not built (run bin/setup):\n" + blog)
         return out
@@ -422,6 +433,6 @@ def run_units(scratch, prop, units, tier):
         t.join()
     for u in have:
         r = results[u]
-        for k in ("violations", "undecided", "units", "cmds", "trusted", "unit_summary"):
+        for k in ("violations", "undecided", "units", "cmds", "trusted", "unit_summary", "assumption_scan"):
             out[k] += r.get(k, [])
     return out
